@@ -72,7 +72,8 @@ def _one(args):
         return h
 
     r = close(program, world, dict(sm.GHOST0), actions, sm.run_sm_action, mon,
-              hooks, configure=sm.configure, stop_rules=owned, frozen_roots=("other",))
+              hooks, configure=sm.configure, stop_rules=owned, frozen_roots=("other",),
+              max_states=30000 if tier == "quick" else 3000000)  # (a quick universe has ~400 typestates: more means the abstraction no longer closes)
     cls = world["machine"].cls
     tun = {}
     for k, v in cls.ns.items():
